@@ -399,3 +399,14 @@ def _getitem(ctx, step):
 def _diagonal(ctx, step):
     op = _op(ctx, step)
     return [("op.diagonal()", op.diagonal()), ("torch.diagonal(op, dim1=-2, dim2=-1)", torch.diagonal(op, dim1=-2, dim2=-1))]
+
+
+@action("tail_sum_b")
+def _tail_sum_b(ctx, step):
+    return [("r.sum(0)", ctx.env["r"].sum(0))]
+
+
+@action("tail_getitem_b")
+def _tail_getitem_b(ctx, step):
+    r = ctx.env["r"]
+    return [("r[i]", r[int(step["arg"])]), ("r[-1]", r[-1])]
